@@ -397,9 +397,9 @@ def run(chk):
         for level in (0, 1):
             r = h.compile(p.text, level)
             if r["status"] != "ok":
-                chk.count("matrix_rejected_" + p.matrix); break
+                chk.count("matrix_rejected_" + p.matrix.split("-")[0]); break
             chk.case(key=(p.text, level), nontrivial=True)
-            chk.count("matrix_" + p.matrix)
+            chk.count("matrix_" + (p.matrix if not p.matrix.startswith("wide-") else "wide"))
             csemx.check_compiled(chk, m, p.text, p, r, "c01m", 1, seed=1, level=level,
                                  sig_fn=lambda kind, t=p.text: classify(t, kind), compile_fn=lambda t, lv=level: h.compile(t, lv))
     h.close(); m.close()
